@@ -273,6 +273,12 @@ fn generator(cfg: &RunCfg, out: &Out) {
                 None => continue,
             }
         };
+        // Inputs outside the function's domain are not generated: a verifiable header's total difficulty is at least its
+        // own difficulty (synth_vh could not express less), and the start is always a *proved* state - an accumulated
+        // difficulty of 2^256-1 is not a state any chain can reach (start + 1 would overflow in sample_blocks).
+        if start_td.is_zero() || last_td.is_zero() || start_td == U256::max_value() {
+            continue;
+        }
         let start_vh = synth_vh(start_number, 1, &start_td);
         let last_vh = synth_vh(last_number, 2, &last_td);
         let with_prev_proof = rng.chance(1, 2);
@@ -307,7 +313,7 @@ fn generator(cfg: &RunCfg, out: &Out) {
             "with_prev_proof": with_prev_proof, "stored_last_n": stored.len(), "from_genesis": from_genesis});
         match res {
             Err(Unwound::Panic(p)) => {
-                out.violation("C15.R1", &p.signature("C15", "build_prove_request_content"), json!({"input": desc, "panic": p.message, "at": p.location}), k);
+                out.violation("C15.R1", &p.signature("C15", "build_prove_request_content"), json!({"input": desc, "panic": p.message, "at": p.location, "bt": p.backtrace_head}), k);
             }
             Err(_) => {}
             Ok(None) => {
